@@ -155,3 +155,29 @@ Section Cont.
 End Cont.
 
 Definition no_tuple (o : jv) : option jv := None.
+
+(* ---- several distinct Unions in ONE annotation -----------------------------------------------------------------------
+   Tuple[U0, U1, ...] (each Ui possibly inside list / dict / Optional containers): slot i is loaded by ITS OWN loader.  In v1
+   every Union position gets its own generated helper function (v1/decorators.py setup_recursive_safe_function: the helper's
+   name carries the running counter len(recursion_guard)), in the default engine its own UnionParser object. *)
+(* MODEL: a fixed-arity tuple whose slots have their OWN loaders (Tuple[U0, U1, ...]) *)
+Fixpoint load_slots (fs : list (jv -> res)) (docs : list jv) : res :=
+  match fs, docs with
+  | [], [] => Ok (LTuple [])
+  | f :: fr, d :: dr =>
+      match f d with
+      | Err e => Err e
+      | Ok v => match load_slots fr dr with
+                | Ok (LTuple vs) => Ok (LTuple (v :: vs))
+                | Ok _ => Err EContainer
+                | Err e => Err e
+                end
+      end
+  | _, _ => Err EContainer
+  end.
+
+Definition slot_loader_v1 coerce c (u : list arg * pos) : jv -> res :=
+  load_pos (load_union_v1 coerce c (fst u)) (snd u).
+Definition slot_loader_v0 c pre (u : list arg * pos) : jv -> res :=
+  load_pos (load_union_v0 c pre (fst u)) (snd u).
+
